@@ -1,4 +1,5 @@
 import Exetera.Gen.OperatorTable
+import Exetera.Gen.DtypeNames
 /-!
   C13 — field operators. The dispatch is table shaped, so it is REGENERATED from `fields.py` on every run
   (`Gen/OperatorTable.lean`); this file gives the tables their meaning:
@@ -97,5 +98,20 @@ def binaryOp {α} (s : Store α) (f : α → α → α) (first second : Operand 
   let a ← first.data s
   let b ← second.data s
   pure ({ cells := (s.next, f a b) :: s.cells, next := s.next + 1 }, s.next)
+
+/-! `dtype_to_str`: names the dtype of the result field (`NumericMemField(session, dtype_to_str(r.dtype))`). The table is
+    REGENERATED from `fields.py` (`Gen/DtypeNames.lean`). A numpy dtype is identified by the way the source spells its type
+    (`bool`, `np.int8`, …); that `r.dtype == np.int8` holds exactly for int8 arrays is numpy's behaviour (trusted). -/
+
+/-- how the source spells the scalar type of the numpy dtype called `n` -/
+def npSymbol (n : String) : String := if n == "bool" then "bool" else "np." ++ n
+
+/-- `dtype_to_str(dtype)` for a numpy dtype spelled `ty`: the first matching row of the chain; `none` = the final `raise` -/
+def dtypeToStr (ty : String) : Option String :=
+  (Gen.dtypeToStrRows.find? (fun r => r.1 == ty)).map (·.2)
+
+/-- the numeric dtypes a field operator can produce (numpy's bool / signed / unsigned / float results up to 64 bit) -/
+def resultDtypes : List String :=
+  ["bool", "int8", "int16", "int32", "int64", "uint8", "uint16", "uint32", "uint64", "float32", "float64"]
 
 end Exetera.FieldOps
